@@ -149,6 +149,10 @@ func checkC10(c *Ctx) {
 		}
 	}
 	c.c10Paths()
+	// what writeIndex reports as written is what a fresh process will read: the temporary
+	// index is installed only after a successful flush and close (decided by C11's rule)
+	nB := c.borrow(checkC11, "C11/ATOMIC/index/install", "C10/PERSIST/index-install", "the new index replaces the old one only after its buffered writer was flushed and the file closed without error: a write fault cannot be reported as success while an incomplete index is installed")
+	r.Floor("C10/PERSIST/index-install", "borrowed obligations", nB, 1)
 }
 
 // persistAfter returns "" if every success-capable return after `at` passes writeIndex,
